@@ -3,6 +3,7 @@
 package main
 
 import (
+	"runtime"
 	"bytes"
 	"fmt"
 	"math/big"
@@ -95,6 +96,32 @@ func genC04(c *Ctx) {
 		n = 1500
 	}
 	h := crypto.NewExpandMsgXOFKMAC128("agg")
+	// very long lists of private keys (carry counters of a lazily reduced sum overflow only after hundreds of additions):
+	// keys next to r, where every addition carries, and uniform keys
+	for _, spec := range []struct {
+		n    int
+		near bool
+	}{{300, true}, {600, true}, {1200, true}, {1500, false}} {
+		ks := make([]*big.Int, spec.n)
+		for i := range ks {
+			if spec.near {
+				ks[i] = new(big.Int).Sub(blsR, big.NewInt(int64(1+i)))
+			} else {
+				ks[i] = c.randScalar()
+			}
+		}
+		c.Case(fmt.Sprintf("agg-sk-many/n=%d", spec.n), "agg.sk "+scalarsLine(ks), guard(func() string {
+			sks := make([]crypto.PrivateKey, len(ks))
+			for i, k := range ks {
+				sks[i] = skFromInt(k)
+			}
+			agg, err := crypto.AggregateBLSPrivateKeys(sks)
+			if err != nil {
+				return "err " + errClass(err)
+			}
+			return "ok " + hx(agg.Encode())
+		}))
+	}
 	// call histories: the public key of an aggregated private key, and the signatures it makes, must not depend on which
 	// of the input keys had their own public key computed before the aggregation (every subset, lists of 2..4 keys)
 	for n := 2; n <= 4; n++ {
@@ -592,6 +619,42 @@ func genC17(c *Ctx) {
 		// SPOCKVerifyAgainstData = Verify
 		c.Case("against-data", fmt.Sprintf("bls.verify 0x%s %s %s", k1.Text(16), hx(hp), hx(p1)), guard(func() string { return boolAns(crypto.SPOCKVerifyAgainstData(pk1, p1, data, h)) }))
 		c.Case("against-other-data", fmt.Sprintf("bls.verify 0x%s %s %s", k1.Text(16), hx(hashPoint(otherData, h)), hx(p1)), guard(func() string { return boolAns(crypto.SPOCKVerifyAgainstData(pk1, p1, otherData, h)) }))
+	}
+	// call histories on one OS thread (state kept between calls - a cache of the last accepted proof, say - must not leak
+	// from a rejected call into the next one): accepted, rejected at the same position, then the accepted proof again
+	{
+		done := make(chan struct{})
+		go func() {
+			defer close(done)
+			runtime.LockOSThread()
+			defer runtime.UnlockOSThread()
+			for it := 0; it < 6; it++ {
+				k1, k2 := c.randScalar(), c.randScalar()
+				sk1, sk2 := skFromInt(k1), skFromInt(k2)
+				pk1, pk2 := sk1.PublicKey(), sk2.PublicKey()
+				dA, dB := c.bytes(20), c.bytes(21)
+				a1, _ := crypto.SPOCKProve(sk1, dA, h)
+				a2, _ := crypto.SPOCKProve(sk2, dA, h)
+				b2, _ := crypto.SPOCKProve(sk2, dB, h)
+				t := askBytes(fmt.Sprintf("e1 torsion %d", []int{100, 0, 102}[it%3]))
+				badG1 := askBytes("e1 add " + hx(a1) + " " + hx(t))
+				offCurve := append([]byte{}, a1...)
+				offCurve[47] ^= 1
+				bads := [][]byte{badG1, offCurve, crypto.BLSInvalidSignature(), a1[:47]}
+				emit := func(class string, x, y []byte) {
+					line := fmt.Sprintf("spock 0x%s %s 0x%s %s", k1.Text(16), hx(x), k2.Text(16), hx(y))
+					c.Case("history/"+class, line, guard(func() string { return boolAns(crypto.SPOCKVerify(pk1, x, pk2, y)) }))
+				}
+				emit("accepted", a1, a2)
+				emit("rejected-position-1", bads[it%len(bads)], a2)
+				emit("accepted-again", a1, a2)
+				emit("other-data-after", a1, b2)
+				emit("rejected-position-2", a1, bads[(it+1)%len(bads)])
+				emit("accepted-again-2", a1, a2)
+				emit("crossed-after", a2, a1)
+			}
+		}()
+		<-done
 	}
 	ec := ecSk(ecCurves[1], big.NewInt(5))
 	bk := skFromInt(big.NewInt(9))
